@@ -205,6 +205,83 @@ def register(reg):
     units['LatexExpressionParser._parse_single_token'] = FunctionUnit(c_pst, inline={
         EXPR + '._check_if_requires_args', W + '.make_node', W + '.check_tolerant_parsing_ignore_error'}, split_depth=5)
 
+    # ---- _update_posposend_from_nodelist: a node list spans from its first to its last non-None node ----------------------------------
+    UPD = NODES + '_update_posposend_from_nodelist'
+    ISNONE = z3.Function('entry_is_none', z3.IntSort(), z3.BoolSort())
+    EPOS = z3.Function('entry_pos', z3.IntSort(), z3.IntSort())
+    EEND = z3.Function('entry_pos_end', z3.IntSort(), z3.IntSort())
+
+    class AbsEntries(object):
+        """a list of arbitrary length whose entries are None or nodes with arbitrary positions"""
+        def __init__(self, it, rev=False, n=None):
+            self.n = n if n is not None else it.ctx.fresh_int('len(nodelist)')
+            it.ctx.assume(self.n >= 0)
+            self.rev = rev
+
+        def idx(self, i):
+            return simp(self.n - 1 - zint(i)) if self.rev else zint(i)
+
+        def pyvc_seq(self, it):
+            def item(i):
+                j = self.idx(i)
+                it.ctx.ghost.setdefault('entry_log', []).append(j)
+                if it.ctx.branch(ISNONE(j)):
+                    return None
+                return AbsVal(j, 'node', attrs={'pos': EPOS(j), 'pos_end': EEND(j), 'truth': lambda it2, sf: True})
+            return (self.n, item)
+
+        def pyvc_reversed(self, it):
+            return AbsEntries(it, rev=not self.rev, n=self.n)
+
+    def setup_upd(it):
+        ctx = it.ctx
+        pos = None if ctx.choose(2, 'pos given') == 0 else sym_int(it, 'pos')
+        pe = None if ctx.choose(2, 'pos_end given') == 0 else sym_int(it, 'pos_end')
+        lst = AbsEntries(it)
+        ctx.ghost['entries'] = lst
+        return {'pos': pos, 'pos_end': pe, 'nodelist': lst}
+    reg.spec('entry_none')(lambda it, q: ISNONE(zint(q)))
+    reg.spec('entry_index')(lambda it, lst, i: lst.idx(i))
+    reg.spec('nlen')(lambda it, lst: lst.n)
+
+    @reg.spec('first_node_position')
+    def first_node_position(it, res, lst):
+        """res is the position of the first non-None entry (witness: the entry the loop stopped at), or None when all are None"""
+        ctx = it.ctx
+        if res is None:
+            q = z3.Int('fq!%d' % ctx.next_id())
+            return z3.ForAll([q], z3.Implies(z3.And(0 <= q, q < lst.n), ISNONE(q)))
+        q = z3.Int('fq!%d' % ctx.next_id())
+        return z_or(*[z3.And(0 <= w, w < lst.n, z3.Not(ISNONE(w)), zint(res) == EPOS(w),
+                             z3.ForAll([q], z3.Implies(z3.And(0 <= q, q < w), ISNONE(q)))) for w in ctx.ghost.get('entry_log', [])])
+
+    @reg.spec('last_node_end')
+    def last_node_end(it, res, lst):
+        ctx = it.ctx
+        if res is None:
+            q = z3.Int('lq!%d' % ctx.next_id())
+            return z3.ForAll([q], z3.Implies(z3.And(0 <= q, q < lst.n), ISNONE(q)))
+        q = z3.Int('lq!%d' % ctx.next_id())
+        return z_or(*[z3.And(0 <= w, w < lst.n, z3.Not(ISNONE(w)), zint(res) == EEND(w),
+                             z3.ForAll([q], z3.Implies(z3.And(w < q, q < lst.n), ISNONE(q)))) for w in ctx.ghost.get('entry_log', [])])
+
+    reg.add_loop(LoopContract(UPD, 0, index='k', invariant=[('only-None-entries-so-far', 'forall(0, k, lambda q: entry_none(q))'),
+                                                             ('nothing-found-yet', 'pos is None')],
+                              havoc={'n': 'none'}, note='first loop: scan from the front'))
+    reg.add_loop(LoopContract(UPD, 1, index='k2', invariant=[('only-None-entries-so-far-from-the-back',
+                                                              'forall(0, k2, lambda q: entry_none(nlen(nodelist) - 1 - q))'),
+                                                             ('nothing-found-yet', 'pos_end is None')],
+                              havoc={'n': 'none'}, note='second loop: scan from the back'))
+    c_upd = reg.add(Contract(
+        UPD, setup=setup_upd,
+        ensures=[('a-given-position-is-kept', 'implies(old(pos) is not None, result[0] == old(pos))'),
+                 ('a-given-end-is-kept', 'implies(old(pos_end) is not None, result[1] == old(pos_end))'),
+                 ('internal:otherwise-the-list-starts-at-its-first-non-None-node', 'implies(old(pos) is None, first_node_position(result[0], nodelist))'),
+                 ('internal:otherwise-the-list-ends-at-its-last-non-None-node', 'implies(old(pos_end) is None, last_node_end(result[1], nodelist))')],
+        modifies=[]))
+    c_upd.extra_olds = ['pos', 'pos_end']
+    upd_units = {'_update_posposend_from_nodelist': FunctionUnit(c_upd)}
+
     # ---- LatexExpressionParser.parse: what becomes of the comments skipped before the expression (C12) ---------------------------------
     def setup_expr(it):
         d = setup_pst(it)
@@ -250,4 +327,6 @@ def register(reg):
 
     for k in list(units) + list(expr_units):
         contracts.REPLAYERS[k] = replay_parse
-    return {'C01': dict(units), 'C05': dict(units), 'C06': dict(units), 'C12': expr_units}
+    c01 = dict(units)
+    c01.update(upd_units)
+    return {'C01': c01, 'C05': dict(units), 'C06': dict(units), 'C12': expr_units}
